@@ -236,7 +236,7 @@ def run(tier, seed):
     res = Result("C01", tier, seed)
     rng = random.Random(seed)
     thm = check_theorems("C01")
-    n = 240 if tier == "quick" else 4000
+    n = 240 if tier == "quick" else 24000
     hc, hmeta, hbad = hop_cases(res, rng, n)
     failing, errors = run_case_check("C01hop", PRELUDE, "bool * hopcase", "chk_hop_sk", hc, per_file=400)
     vc, vmeta, vbad = verlet_cases(res, rng, n // 2)
@@ -248,7 +248,7 @@ def run(tier, seed):
     res.traces_validated = len(hc) + len(vc) + len(kc) - len(failing) - len(f2) - len(f3)
     # ---- whole loop-body passes of real FSSH runs replayed through Model/Traj.step (wiring of the pieces)
     import ptraj
-    tc, tmeta = ptraj.collect(res, rng, 7 if tier == "quick" else 40, 40 if tier == "quick" else 400)
+    tc, tmeta = ptraj.collect(res, rng, 7 if tier == "quick" else 150, 40 if tier == "quick" else 1500)
     f4, e4 = run_case_check("C01traj", ptraj.PRELUDE_T, "caseT", "chkT", tc, per_file=8, timeout=1500)
     for e in e4:
         res.violation("model evaluation failed (coqc)", dict(kind="coqc-error", log=e, no_failing_input_found=True))
